@@ -91,9 +91,6 @@ func (x *Exec) call(s *State, f *Frame, in *ssa.Call, c *ssa.CallCommon, deferre
 		return nil
 	}
 	// result already stored by invoke; run post hooks
-	if s.Panic != nil {
-		return x.unwind(s)
-	}
 	var res []Value
 	if v, ok := f.Regs[in]; ok {
 		res = []Value{v}
@@ -402,8 +399,9 @@ func (x *Exec) callContract(s *State, f *Frame, cc *CallCtx, target *ssa.Functio
 func (x *Exec) havocPrefix(s *State, prefix string) {
 	prefix = shortKey(prefix)
 	for k, v := range s.Heap {
-		if k == prefix || strings.HasPrefix(k, prefix+".") || strings.HasPrefix(k, prefix+"#") {
+		if k == prefix || strings.HasPrefix(k, prefix+".") || strings.HasPrefix(k, prefix+"@") {
 			s.Heap[k] = x.Ctx.Fresh("H."+k, v.Sort)
+			s.lenAxiom(k, s.Heap[k])
 		}
 	}
 }
